@@ -142,6 +142,16 @@ Fixpoint view_after (ops : list sinkop) (d pid : N) (v : option (list attr)) : o
   | Reach d' p' _ a _ :: t => view_after t d pid (if (d' =? d) && (p' =? pid) then Some a else v)
   end.
 
+(* an operation that concerns (dest, pid) *)
+Definition touches (d pid : N) (op : sinkop) : bool :=
+  match op with
+  | Unreach d' p' => (d' =? d) && (p' =? pid)
+  | Reach d' p' _ _ _ => (d' =? d) && (p' =? pid)
+  end.
+
+(* what was sent for a destination, in the terms of ExportMap::sent_path_ids *)
+Definition was_sent_path (e : emap) (d pid : N) : Prop := In pid (em_sent_path_ids e d).
+
 (* ------------------------------------------------------------ attribute sets the wire decoder produces *)
 (* the codes bgp.rs recognises (Attribute::canonical_flags is defined on them) *)
 Definition recognised (c : N) : bool :=
